@@ -4,7 +4,15 @@
  *
  * cases: [0, nscopes)        closure scopes (every op of the alphabet in every
  *                            reachable state of a small scope)
- *        [nscopes, ...)      seeded random histories (lists up to ~500 elements)
+ *        then NBIG           lists of 70 000 elements
+ *        then nruns()        sorts of 800 .. 33 000 (thorough 200 000) elements whose keys come in runs
+ *                            (run_shapes[] x runs ascending/descending x comparator ascending/descending)
+ *        the rest            seeded random histories (lists up to ~500 elements)
+ * (mode "clear" has the closure scopes and the random histories only)
+ *
+ * foreach flavours FE_NEST / FE_NEST_STOP: the visitor calls size/front/back/find and foreach on the list
+ * that is being walked and on another one (read-only re-entrancy), with early stop of the inner and of the
+ * outer walk; the outer walk is held to the same oracle as a plain one (keys dlist.foreach.reentrant.*).
  *
  * Oracle (after every call): FWD foreach == reference sequence, REV foreach ==
  * its mirror, front/back/size, pops on empty == NULL; return values of every
@@ -54,7 +62,7 @@ enum {
     K_REVERSE, K_SORT, K_CONCAT, K_SWAP, K_FIND, K_FOREACH, K_CLEAR, K_NKINDS
 };
 /* foreach flavours */
-enum { FE_PLAIN = 0, FE_STOP, FE_ERASE_ONE, FE_ERASE_ALL, FE_ERASE_STOP, FE_NFLAV };
+enum { FE_PLAIN = 0, FE_STOP, FE_ERASE_ONE, FE_ERASE_ALL, FE_ERASE_STOP, FE_NEST, FE_NEST_STOP, FE_NFLAV };
 enum { FWD = 0, REV = 1 };
 
 #define OP(kind, l1, l2, key, dir, flav, pos) \
@@ -67,6 +75,7 @@ enum { FWD = 0, REV = 1 };
 #define OP_DIR(o)  ((int)(((o) >> 16) & 1))
 #define OP_FLAV(o) ((int)(((o) >> 17) & 7))
 #define OP_POS(o)  ((int)((o) >> 20))
+#define POS_LAST 0xfff      /* FE_NEST_STOP: the last visit, wherever that is (lists of 3 and more) */
 
 static cstl_dlist_foreach_dir_t libdir(int dir)
 {
@@ -223,6 +232,85 @@ static int record_cb(void *e, void *p)
     if (GOTn >= GOTmax) return 97;
     GOT[GOTn++] = e;
     return 0;
+}
+
+/* ---- read-only re-entrancy: a visitor that looks at the list it is being shown, and at another one ----
+ * size, front, back, find and foreach change nothing, so a visitor may call them on any list, including the one
+ * that is being walked (the all-pairs loop); the outer walk must go on as if nothing had happened.  The model is
+ * not touched by these flavours, so the inner calls are checked against M[][] directly. */
+struct innerp { int l, dir, n, bad, stop_at, stop_val; };
+static int inner_cb(void *e, void *p)
+{
+    struct innerp *w = p;
+    const int len = Mn[w->l];
+    if (w->stop_at >= 0 && w->n > w->stop_at) { w->bad = 1 + w->n; return 96; }
+    if (w->n >= len || e != (void *)(w->dir == REV ? M[w->l][len - 1 - w->n] : M[w->l][w->n])) { w->bad = 1 + w->n; return 95; }
+    if (w->n++ == w->stop_at) return w->stop_val;
+    return 0;
+}
+/* full: walk the whole list (otherwise the inner walk stops early somewhere) and try find */
+static void look_at(int l, int same, int full, unsigned salt)
+{
+    struct cstl_dlist *dl = &L[l];
+    const int len = Mn[l], dir = (int)(salt & 1);
+    struct innerp w;
+    int r, i;
+
+    VRT_CHECK(cstl_dlist_size(dl) == (size_t)len, "dlist.foreach.reentrant.size", "size of list %d read inside a visitor: %zu, reference %d", l, cstl_dlist_size(dl), len);
+    VRT_CHECK(cstl_dlist_front(dl) == (len ? (void *)M[l][0] : NULL), "dlist.foreach.reentrant.front", "front of list %d read inside a visitor is not the reference first (len %d)", l, len);
+    VRT_CHECK(cstl_dlist_back(dl) == (len ? (void *)M[l][len - 1] : NULL), "dlist.foreach.reentrant.back", "back of list %d read inside a visitor is not the reference last (len %d)", l, len);
+    memset(&w, 0, sizeof(w));
+    w.l = l; w.dir = dir; w.stop_at = -1;
+    if (!full && len > 0) {
+        w.stop_at = (int)((salt >> 1) % (unsigned)(len < 40 ? len : 40));
+        w.stop_val = vrt_stop_value(salt * 7u + 3u);
+    }
+    r = cstl_dlist_foreach(dl, inner_cb, &w, libdir(dir));
+    VRT_CHECK(w.bad == 0, "dlist.foreach.reentrant.inner.order", "walk of list %d started inside a visitor: wrong element or visit after the stop at visit %d (len %d)", l, w.bad - 1, len);
+    if (w.stop_at >= 0) {
+        VRT_CHECK(w.n == w.stop_at + 1, "dlist.foreach.reentrant.inner.incomplete", "walk of list %d started inside a visitor made %d visits, the stop was due at visit %d", l, w.n, w.stop_at);
+        VRT_CHECK(r == w.stop_val, "dlist.foreach.reentrant.inner.stop-value", "walk started inside a visitor returned %d, its visitor's non-zero result was %d", r, w.stop_val);
+        VRT_COUNT("foreach.reentrant.inner-early-stop");
+    } else {
+        VRT_CHECK(w.n == len, "dlist.foreach.reentrant.inner.incomplete", "walk of list %d started inside a visitor made %d visits over %d elements", l, w.n, len);
+        VRT_CHECK(r == 0, "dlist.foreach.reentrant.inner.ret", "walk started inside a visitor returned %d without a stop request", r);
+        if (len >= 2) { if (same) VRT_COUNT("foreach.reentrant.inner-full-walk.same-list"); else VRT_COUNT("foreach.reentrant.inner-full-walk.other-list"); }
+    }
+    if (full || (len <= 40 && (salt >> 4) % 3 == 0)) {
+        /* find: the first match in the chosen direction for a key of the list (or one that no element carries) */
+        struct elem probe, *want = NULL;
+        const int fdir = (int)((salt >> 2) & 1);
+        const int key = (salt % 5 == 0 || len == 0) ? nkeys : M[l][(salt >> 3) % (unsigned)len]->key;
+        void *got;
+        memset(&probe, 0x5e, sizeof(probe));
+        probe.magic = MAGIC; probe.id = -1; probe.key = key; probe.where[0] = probe.where[1] = -3;
+        for (i = 0; i < len && !want; i++) {
+            struct elem *c = fdir == REV ? M[l][len - 1 - i] : M[l][i];
+            if (c->key == key) want = c;
+        }
+        got = cstl_dlist_find(dl, &probe, cmp_find, &find_tag, libdir(fdir));
+        VRT_CHECK(got == (void *)want, "dlist.foreach.reentrant.find", "find on list %d inside a visitor returned %p, the first match in that direction is %p", l, got, (void *)want);
+        VRT_COUNT("foreach.reentrant.find");
+    }
+}
+static int nest_cb(void *e, void *p)
+{
+    struct walkp *w = p;
+    const int i = w->n;
+    const unsigned salt = (unsigned)i * 2654435761u + 40503u * vrt_case_tick();
+    int full;
+
+    if (w->stop_at >= 0 && i > w->stop_at) { w->bad = 1 + i; return 98; }     /* called again after a stop */
+    if (i >= EXPn || EXP[i] != e) { w->bad = 1 + i; return 99; }
+    w->n++;
+    /* short lists: every third inner walk is complete (all pairs); long ones: at the first, the middle and the last visit */
+    full = EXPn <= 40 ? (salt >> 7) % 3 == 0 || EXPn <= 3 : (i == 0 || i == EXPn / 2 || i == EXPn - 1);
+    look_at(w->l, 1, full, salt >> 9);
+    if (nlists > 1) {
+        look_at((w->l + 1 + ((i & 1) && nlists > 2)) % nlists, 0, EXPn <= 40 ? (salt >> 5) % 2 == 0 : i == EXPn / 3, salt >> 11);
+        VRT_COUNT("foreach.reentrant.other-list");
+    }
+    return w->stop_at == i ? w->stop_val : 0;
 }
 
 /* ---- audits ---- */
@@ -545,6 +633,7 @@ static int st_apply(uint32_t op, int audit)
     case K_FOREACH: {
         struct walkp w;
         int rr, nmodel;
+        const int re = flav == FE_NEST || flav == FE_NEST_STOP;
         memset(&w, 0, sizeof(w));
         w.l = l1; w.stop_at = -1; w.erase_at = -1;
         switch (flav) {
@@ -553,27 +642,35 @@ static int st_apply(uint32_t op, int audit)
         case FE_ERASE_ONE: if (pos >= Mn[l1]) return 0; w.erase_at = pos; break;
         case FE_ERASE_ALL: if (Mn[l1] == 0) return 0; w.erase_at = -2; break;
         case FE_ERASE_STOP: if (pos >= Mn[l1]) return 0; w.erase_at = pos; w.stop_at = pos; break;
+        case FE_NEST: if (pos != 0) return 0; break;
+        case FE_NEST_STOP: if (pos == POS_LAST ? Mn[l1] < 3 : pos >= Mn[l1]) return 0; w.stop_at = pos == POS_LAST ? Mn[l1] - 1 : pos; break;
         default: return 0;
         }
         /* chosen non-zero stop values of both signs */
         w.stop_val = vrt_stop_value((unsigned)pos * 31u + 5u * vrt_case_tick());
         snapshot(l1, dir);
         vrt_state(flav == FE_PLAIN ? "plain" : flav == FE_STOP ? "early-stop" :
-                  flav == FE_ERASE_ONE ? "visitor-erases-one" : flav == FE_ERASE_ALL ? "visitor-erases-all" : "visitor-erases-and-stops");
+                  flav == FE_ERASE_ONE ? "visitor-erases-one" : flav == FE_ERASE_ALL ? "visitor-erases-all" :
+                  flav == FE_ERASE_STOP ? "visitor-erases-and-stops" : flav == FE_NEST ? "visitor-reads-the-lists" : "visitor-reads-the-lists-and-stops");
         VRT_OP4("dlist.foreach", "l%ld dir%ld flavour%ld @%ld", l1, dir, flav, pos);
-        rr = cstl_dlist_foreach(&L[l1], visit_cb, &w, libdir(dir));
-        VRT_CHECK(!(w.bad && w.stop_at >= 0 && w.bad - 1 > w.stop_at), "dlist.foreach.continued-after-stop",
+        rr = cstl_dlist_foreach(&L[l1], re ? nest_cb : visit_cb, &w, libdir(dir));
+        VRT_CHECK(!(w.bad && w.stop_at >= 0 && w.bad - 1 > w.stop_at), re ? "dlist.foreach.reentrant.continued-after-stop" : "dlist.foreach.continued-after-stop",
                   "visitor returned %d at visit %d but was called again", w.stop_val, w.stop_at);
-        VRT_CHECK(w.bad == 0, dir == FWD ? "dlist.foreach.fwd.order" : "dlist.foreach.rev.order",
+        VRT_CHECK(w.bad == 0, re ? "dlist.foreach.reentrant.order" : dir == FWD ? "dlist.foreach.fwd.order" : "dlist.foreach.rev.order",
                   "foreach visited a wrong element at visit %d (%d removed by the visitor so far)", w.bad - 1, w.erased);
         if (w.stop_at >= 0) {
-            VRT_CHECK(w.n == w.stop_at + 1, "dlist.foreach.incomplete", "foreach made %d visits, the stop was due at visit %d", w.n, w.stop_at);
-            VRT_CHECK(rr == w.stop_val, "dlist.foreach.stop-value", "foreach returned %d, the visitor's non-zero result was %d", rr, w.stop_val);
+            VRT_CHECK(w.n == w.stop_at + 1, re ? "dlist.foreach.reentrant.incomplete" : "dlist.foreach.incomplete", "foreach made %d visits, the stop was due at visit %d", w.n, w.stop_at);
+            VRT_CHECK(rr == w.stop_val, re ? "dlist.foreach.reentrant.stop-value" : "dlist.foreach.stop-value", "foreach returned %d, the visitor's non-zero result was %d", rr, w.stop_val);
             VRT_COUNT("op.foreach.early-stop");
             if (w.stop_val < 0) VRT_COUNT("op.foreach.early-stop.negative-value");
         } else {
-            VRT_CHECK(w.n == EXPn, "dlist.foreach.incomplete", "foreach made %d visits over %d elements (%d removed by the visitor)", w.n, EXPn, w.erased);
-            VRT_CHECK(rr == 0, "dlist.foreach.ret", "foreach returned %d without a stop request", rr);
+            VRT_CHECK(w.n == EXPn, re ? "dlist.foreach.reentrant.incomplete" : "dlist.foreach.incomplete", "foreach made %d visits over %d elements (%d removed by the visitor)", w.n, EXPn, w.erased);
+            VRT_CHECK(rr == 0, re ? "dlist.foreach.reentrant.ret" : "dlist.foreach.ret", "foreach returned %d without a stop request", rr);
+        }
+        if (re && EXPn >= 2) {
+            /* the visitor called size/front/back/find and walked the same list (and another) at every visit */
+            VRT_COUNT("op.foreach.reentrant");
+            if (w.stop_at >= 0) VRT_COUNT("op.foreach.reentrant.outer-stop");
         }
         if (w.erased) {
             /* rebuild the model from the snapshot minus what the visitor removed */
@@ -737,6 +834,11 @@ static int build_alphabet(const struct cscope *s, uint32_t *al)
             for (k = 0; k <= s->nk; k++) al[n++] = OP(K_FIND, l, 0, k, d, 0, 0);
             al[n++] = OP(K_FOREACH, l, 0, 0, d, FE_PLAIN, 0);
             al[n++] = OP(K_FOREACH, l, 0, 0, d, FE_ERASE_ALL, 0);
+            al[n++] = OP(K_FOREACH, l, 0, 0, d, FE_NEST, 0);
+            /* outer stop at the first, the second and the last visit */
+            al[n++] = OP(K_FOREACH, l, 0, 0, d, FE_NEST_STOP, 0);
+            al[n++] = OP(K_FOREACH, l, 0, 0, d, FE_NEST_STOP, 1);
+            al[n++] = OP(K_FOREACH, l, 0, 0, d, FE_NEST_STOP, POS_LAST);
             for (f = FE_STOP; f <= FE_ERASE_STOP; f++) {
                 if (f == FE_ERASE_ALL) continue;
                 for (p = 0; p < s->np; p++) al[n++] = OP(K_FOREACH, l, 0, 0, d, f, p);
@@ -814,8 +916,10 @@ static void run_random(uint64_t idx)
         else if (r < 800) op = OP(K_CONCAT, l, l2, 0, 0, 0, 0);
         else if (r < 850) op = OP(K_SWAP, l, l2, 0, 0, 0, 0);
         else if (r < 910) op = OP(K_FIND, l, 0, vrt_below(&g, nk + 1), d, 0, 0);
-        else if (r < 930) op = OP(K_FOREACH, l, 0, 0, d, FE_PLAIN, 0);
-        else if (r < 950) op = OP(K_FOREACH, l, 0, 0, d, FE_STOP, anypos);
+        else if (r < 924) op = OP(K_FOREACH, l, 0, 0, d, FE_PLAIN, 0);
+        else if (r < 930) op = OP(K_FOREACH, l, 0, 0, d, FE_NEST, 0);
+        else if (r < 945) op = OP(K_FOREACH, l, 0, 0, d, FE_STOP, anypos);
+        else if (r < 950) op = OP(K_FOREACH, l, 0, 0, d, FE_NEST_STOP, anypos);
         else if (r < 975) op = OP(K_FOREACH, l, 0, 0, d, FE_ERASE_ONE, anypos);
         else if (r < 985) op = OP(K_FOREACH, l, 0, 0, d, FE_ERASE_STOP, anypos);
         else if (r < 990) op = OP(K_FOREACH, l, 0, 0, d, FE_ERASE_ALL, 0);
@@ -897,6 +1001,246 @@ static void run_big(uint64_t which)
     VRT_COUNT("big.cases");
     vrt_sig(0, 0xb16 + which);
 }
+/* ---- sort inputs with run structure ----
+ * What a natural / bottom-up merge sort with a fixed-size stack of pending runs keys on: the number of maximal
+ * ascending (or descending) runs, the sequence of their lengths, and whether the comparator's order agrees with
+ * them.  A few cheap big lists per shape; the oracle is the one of K_SORT (ordered permutation of the same
+ * elements seen by a FWD foreach, REV foreach is its mirror, links and size consistent).  In every second case the
+ * comparator now and then sorts ANOTHER (small) list with another comparison function and another priv: sorts of
+ * distinct lists know nothing of each other. */
+struct relem { int key; unsigned mark; uint64_t pad; struct cstl_dlist_node n; };
+struct selem { uint64_t pad[3]; struct cstl_dlist_node n; int key; };
+#define NSIDE 11
+static struct selem SIDE[NSIDE];
+static struct cstl_dlist side_list;
+static int side_tag;
+static struct runs_ctx {
+    int dir;                    /* +1 ascending, -1 descending */
+    struct relem *E; size_t n;  /* the elements that may be compared */
+    long budget;
+    unsigned long calls, nested;
+    int nest, in_nested;
+} RC;
+static struct relem **RORD;     /* order seen by the FWD traversal */
+static size_t RLn;              /* number of elements linked */
+
+static int side_cmp(const void *a, const void *b, void *p)
+{
+    const struct selem *x = a, *y = b;
+    VRT_CHECK(p == (void *)&side_tag, "dlist.sort.nested.cmp-priv", "comparison function of the sort started inside a comparator called with wrong priv %p", p);
+    VRT_CHECK(x >= SIDE && x < SIDE + NSIDE && y >= SIDE && y < SIDE + NSIDE, "dlist.sort.nested.cmp-foreign-element",
+              "comparison function of the sort started inside a comparator called with elements of another list");
+    VRT_CHECK(RC.in_nested, "dlist.sort.nested.cmp-after-return", "comparison function of the inner sort called after that sort had returned");
+    return (x->key < y->key) - (x->key > y->key);       /* descending */
+}
+static void nested_sort(struct runs_ctx *c)
+{
+    const struct cstl_dlist_node *q;
+    int i, last = 0x7fffffff;
+    for (i = 0; i < NSIDE; i++) SIDE[i].key = (int)((c->calls / 7 + (unsigned)i * 5u) % 13u);
+    c->in_nested = 1;
+    cstl_dlist_sort(&side_list, side_cmp, &side_tag);
+    c->in_nested = 0;
+    for (q = side_list.h.n, i = 0; q != &side_list.h && i <= NSIDE; q = q->n, i++) {
+        const struct selem *x = (const struct selem *)((const char *)q - offsetof(struct selem, n));
+        VRT_CHECK(x >= SIDE && x < SIDE + NSIDE && q->n->p == q, "dlist.sort.nested.links", "foreign node or broken back link in the list sorted inside a comparator");
+        VRT_CHECK(x->key <= last, "dlist.sort.nested.unordered", "list sorted inside a comparator is out of order at %d", i);
+        last = x->key;
+    }
+    VRT_CHECK(i == NSIDE && cstl_dlist_size(&side_list) == NSIDE, "dlist.sort.nested.length", "list sorted inside a comparator has %d elements linked, size %zu", i, cstl_dlist_size(&side_list));
+    c->nested++;
+}
+static int runs_is_elem(const void *e)
+{
+    const char *c = e, *b = (const char *)RC.E;
+    return c >= b && c < b + RC.n * sizeof(struct relem) && (size_t)(c - b) % sizeof(struct relem) == 0;
+}
+static int runs_cmp(const void *a, const void *b, void *p)
+{
+    struct runs_ctx *c = &RC;
+    const struct relem *x = a, *y = b;
+    int r;
+    VRT_CHECK(p == (void *)&RC, "dlist.sort.cmp-priv", "comparison called with wrong priv %p", p);
+    VRT_CHECK(!c->in_nested && runs_is_elem(a) && runs_is_elem(b), "dlist.sort.cmp-non-element", "comparison called with a non-element");
+    VRT_CHECK(c->budget-- > 0, "dlist.sort.runaway", "sort made more than 64*n+64 comparisons");
+    c->calls++;
+    if (c->nest && (c->calls & 511) == 257) nested_sort(c);
+    r = (x->key > y->key) - (x->key < y->key);
+    if (c->dir < 0) r = -r;
+    return (c->calls & 7) == 3 ? vrt_cmp_result(r, (unsigned)c->calls) : r * (int)(1 + c->calls % 997);
+}
+struct rwalk { size_t n; int bad, dir, last; unsigned stamp; };
+static int runs_fwd_cb(void *e, void *p)
+{
+    struct rwalk *w = p;
+    struct relem *x = e;
+    if (w->n >= RLn) { w->bad = 1; return 91; }
+    if (!runs_is_elem(e)) { w->bad = 2; return 92; }
+    if (x->mark == w->stamp) { w->bad = 3; return 93; }
+    x->mark = w->stamp;
+    if (w->n > 0 && (w->dir > 0 ? x->key < w->last : x->key > w->last)) { w->bad = 4; return 94; }
+    w->last = x->key;
+    RORD[w->n++] = x;
+    return 0;
+}
+static int runs_rev_cb(void *e, void *p)
+{
+    struct rwalk *w = p;
+    if (w->n >= RLn || (void *)RORD[RLn - 1 - w->n] != e) { w->bad = 1; return 91; }
+    w->n++;
+    return 0;
+}
+static void runs_sort_and_check(struct cstl_dlist *a, int dir, unsigned stamp)
+{
+    struct rwalk w;
+    const struct cstl_dlist_node *q;
+    size_t n;
+    int r;
+    RC.dir = dir; RC.budget = 64L * (long)RLn + 64; RC.in_nested = 0;
+    vrt_state(dir > 0 ? "runs-ascending-order" : "runs-descending-order");
+    VRT_OP2("dlist.sort", "%ld elements with run structure, direction %ld", RLn, dir);
+    cstl_dlist_sort(a, runs_cmp, &RC);
+    VRT_CHECK(cstl_dlist_size(a) == RLn, "dlist.sort.runs.size", "size %zu after sort of %zu elements", cstl_dlist_size(a), RLn);
+    memset(&w, 0, sizeof(w)); w.dir = dir; w.stamp = stamp;
+    r = cstl_dlist_foreach(a, runs_fwd_cb, &w, CSTL_DLIST_FOREACH_DIR_FWD);
+    VRT_CHECK(w.bad != 1, "dlist.sort.runs.overlong", "traversal after sort yields more than the %zu elements that were in the list", RLn);
+    VRT_CHECK(w.bad != 2, "dlist.sort.runs.foreign-element", "element at %zu after sort was not in the list", w.n);
+    VRT_CHECK(w.bad != 3, "dlist.sort.runs.not-a-permutation", "element at %zu after sort appears twice", w.n);
+    VRT_CHECK(w.bad != 4, "dlist.sort.runs.unordered", "keys out of order at %zu of %zu (%s sort)", w.n, RLn, dir > 0 ? "ascending" : "descending");
+    VRT_CHECK(w.n == RLn && r == 0, "dlist.sort.runs.length", "sort changed the number of linked elements: %zu vs %zu", w.n, RLn);
+    VRT_CHECK(cstl_dlist_front(a) == (void *)RORD[0] && cstl_dlist_back(a) == (void *)RORD[RLn - 1], "dlist.sort.runs.front-back", "front/back after sort are not the ends of the traversal");
+    memset(&w, 0, sizeof(w));
+    r = cstl_dlist_foreach(a, runs_rev_cb, &w, CSTL_DLIST_FOREACH_DIR_REV);
+    VRT_CHECK(w.bad == 0 && w.n == RLn && r == 0, "dlist.sort.runs.rev-mismatch", "REV traversal after sort is not the mirror of the FWD traversal at %zu from the back (of %zu)", w.n, RLn);
+    /* white-box extra: the ring */
+    for (q = a->h.n, n = 0; q != &a->h && n <= RLn; q = q->n, n++)
+        VRT_CHECK(q == &RORD[n]->n && q->n->p == q, "dlist.walker.runs.back-link", "node %zu after sort: n->n->p != n", n);
+    VRT_CHECK(q == &a->h && n == RLn && a->h.n->p == &a->h, "dlist.walker.runs.ring", "ring does not close at the sentinel after %zu links", RLn);
+}
+
+enum { RS_DECR, RS_INCR, RS_EQUAL, RS_LONG_ONES, RS_ONES_LONG, RS_SAW, RS_ORGAN, RS_RANDOM, RS_GEOM, RS_FIB };
+struct rshape { int shape, param; size_t n; };
+static const struct rshape run_shapes[] = {
+    { RS_DECR, 40, 0 }, { RS_DECR, 72, 0 }, { RS_DECR, 100, 0 }, { RS_DECR, 150, 0 },  /* run lengths k, k-1, ..., 1 */
+    { RS_INCR, 40, 0 }, { RS_INCR, 72, 0 }, { RS_INCR, 100, 0 }, { RS_INCR, 150, 0 },  /* 1, 2, ..., k */
+    { RS_EQUAL, 2, 4000 }, { RS_EQUAL, 3, 6000 }, { RS_EQUAL, 5, 20000 },
+    { RS_LONG_ONES, 0, 3000 }, { RS_ONES_LONG, 0, 3000 },                              /* one long run, many of length 1 */
+    { RS_SAW, 7, 5000 }, { RS_SAW, 100, 20000 }, { RS_ORGAN, 0, 4001 },
+    { RS_RANDOM, 3, 0 }, { RS_RANDOM, 8, 0 }, { RS_RANDOM, 300, 0 },                   /* random lengths 1..param */
+    { RS_GEOM, 0, 14 }, { RS_GEOM, 1, 14 }, { RS_FIB, 0, 20 }, { RS_FIB, 1, 20 },      /* 2^14, 2^13, ..., 1 / Fibonacci lengths; 1: shortest first */
+#define NRS_QUICK 23
+    { RS_DECR, 632, 0 }, { RS_INCR, 632, 0 }, { RS_EQUAL, 2, 200000 }, { RS_EQUAL, 5, 200000 },
+    { RS_LONG_ONES, 0, 200000 }, { RS_ONES_LONG, 0, 200000 }, { RS_RANDOM, 64, 200000 }, { RS_SAW, 3, 200000 },
+};
+#define NRS_ALL ((int)(sizeof(run_shapes) / sizeof(run_shapes[0])))
+static const char *const rs_name[] = { "decreasing-lengths", "increasing-lengths", "equal-lengths", "long-then-ones", "ones-then-long",
+                                       "sawtooth", "organ-pipe", "random-lengths", "halving-lengths", "fibonacci-lengths" };
+
+/* the keys of one maximal non-descending run (dup: steps 0..2 instead of 1), starting below the end of the previous one */
+struct rgen { vrt_rng *g; int *key; size_t n, cap; int have, last, dup; size_t runs; };
+static void emit_run(struct rgen *G, size_t len)
+{
+    int k = (int)vrt_below(G->g, 1000);
+    if (len == 0 || G->n >= G->cap) return;
+    if (G->have && k >= G->last) k = G->last - 1 - (int)vrt_below(G->g, 3);
+    while (len-- > 0 && G->n < G->cap) {
+        G->key[G->n++] = k;
+        G->last = k;
+        k += G->dup ? (int)vrt_below(G->g, 3) : 1;
+    }
+    G->have = 1; G->runs++;
+}
+static size_t runs_total(const struct rshape *s, vrt_rng *g)
+{
+    size_t f0 = 1, f1 = 1, t = 0;
+    int i;
+    switch (s->shape) {
+    case RS_DECR: case RS_INCR: return (size_t)s->param * (s->param + 1) / 2;
+    case RS_GEOM: return ((size_t)2 << s->n) - 1;
+    case RS_FIB: for (i = 0; i < (int)s->n; i++) { size_t f = f0 + f1; t += f0; f0 = f1; f1 = f; } return t;
+    case RS_RANDOM: return s->n ? s->n : 2000 + vrt_below(g, 18000);
+    default: return s->n;
+    }
+}
+static void runs_keys(const struct rshape *s, struct rgen *G)
+{
+    size_t i, fib[64];
+    switch (s->shape) {
+    case RS_DECR: for (i = s->param; i >= 1; i--) emit_run(G, i); break;
+    case RS_INCR: for (i = 1; i <= (size_t)s->param; i++) emit_run(G, i); break;
+    case RS_EQUAL: while (G->n < G->cap) emit_run(G, s->param); break;
+    case RS_LONG_ONES: emit_run(G, G->cap / 2); while (G->n < G->cap) emit_run(G, 1); break;
+    case RS_ONES_LONG: while (G->n < G->cap / 2) emit_run(G, 1); emit_run(G, G->cap - G->n); break;
+    case RS_SAW: for (i = 0; i < G->cap; i++) G->key[G->n++] = (int)(i % (size_t)s->param); G->runs = G->cap / s->param; break;
+    case RS_ORGAN: for (i = 0; i < G->cap; i++) G->key[G->n++] = (int)(i < G->cap / 2 ? i : G->cap - 1 - i); G->runs = G->cap / 2; break;
+    case RS_RANDOM: while (G->n < G->cap) emit_run(G, 1 + vrt_below(G->g, s->param)); break;
+    case RS_GEOM:
+        for (i = 0; i <= s->n; i++) emit_run(G, (size_t)1 << (s->param ? i : s->n - i));
+        break;
+    case RS_FIB:
+        fib[0] = fib[1] = 1;
+        for (i = 2; i < s->n; i++) fib[i] = fib[i - 1] + fib[i - 2];
+        for (i = 0; i < s->n; i++) emit_run(G, fib[s->param ? i : s->n - 1 - i]);
+        break;
+    }
+}
+static void run_runs(uint64_t which)
+{
+    const int nshapes = vrt_thorough ? NRS_ALL : NRS_QUICK;
+    const struct rshape *s = &run_shapes[which % nshapes];
+    const int v = (int)(which / nshapes);           /* 0..3: runs ascending/descending x comparator ascending/descending */
+    const int mirror = v & 1, dir = (v & 2) ? -1 : 1;
+    struct cstl_dlist a;
+    struct rgen G;
+    struct relem *E;
+    vrt_rng g;
+    size_t i, n;
+    int *key;
+
+    vrt_rng_seed(&g, vrt_seed, 0xC12A00 + which);
+    n = runs_total(s, &g);
+    key = vrt_alloc(sizeof(*key) * n);
+    memset(&G, 0, sizeof(G));
+    G.g = &g; G.key = key; G.cap = n; G.dup = (int)vrt_below(&g, 2);
+    runs_keys(s, &G);
+    n = G.n;
+    E = vrt_alloc(sizeof(*E) * n);
+    RORD = vrt_alloc(sizeof(*RORD) * n);
+    memset(E, 0x5e, sizeof(*E) * n);
+    memset(&RC, 0, sizeof(RC));
+    RC.E = E; RC.n = n; RC.nest = (int)((which + v) & 1);
+    vrt_case_note("sort of %zu elements in %zu %s runs: %s (param %d), comparator %s%s", n, G.runs, mirror ? "descending" : "ascending",
+                  rs_name[s->shape], s->param, dir > 0 ? "ascending" : "descending", RC.nest ? ", comparator sorts another list now and then" : "");
+    memset(&side_list, 0x77, sizeof(side_list));
+    cstl_dlist_init(&side_list, offsetof(struct selem, n));
+    for (i = 0; i < NSIDE; i++) { SIDE[i].key = (int)i; cstl_dlist_push_back(&side_list, &SIDE[i]); }
+    memset(&a, 0x77, sizeof(a));
+    cstl_dlist_init(&a, offsetof(struct relem, n));
+    VRT_OP1("dlist.push_back", "%ld elements", n);
+    for (i = 0; i < n; i++) {
+        E[i].key = mirror ? -key[i] : key[i]; E[i].mark = 0;
+        if (which & 4) cstl_dlist_push_back(&a, &E[i]);
+    }
+    if (!(which & 4)) for (i = n; i-- > 0; ) cstl_dlist_push_front(&a, &E[i]);
+    RLn = n;
+    runs_sort_and_check(&a, dir, 1);
+    /* the result is one single run against the order asked for next */
+    runs_sort_and_check(&a, -dir, 2);
+    VRT_COUNT_N("cb.sort-compare", RC.calls);
+    VRT_COUNT_N("sort.comparator-sorted-another-list", RC.nested);
+    VRT_COUNT("sort.runs.cases");
+    if (G.runs > 64) VRT_COUNT("sort.runs.more-than-64-runs");
+    if (G.runs > 1024) VRT_COUNT("sort.runs.more-than-1024-runs");
+    if (mirror) VRT_COUNT("sort.runs.descending-runs"); else VRT_COUNT("sort.runs.ascending-runs");
+    if ((dir > 0) == !mirror) VRT_COUNT("sort.runs.comparator-agrees-with-runs"); else VRT_COUNT("sort.runs.comparator-against-runs");
+    VRT_MAX("max.sort.runs.elements", n);
+    vrt_sig(1, vrt_mix(vrt_mix(0x5045 + which, n), G.runs));
+    vrt_sig(0, vrt_mix(0x5045, which));
+    vrt_free(RORD); RORD = NULL;
+    vrt_free(E);
+    vrt_free(key);
+}
+static uint64_t nruns(void) { return 4 * (uint64_t)(vrt_thorough ? NRS_ALL : NRS_QUICK); }
 #define NBIG 2
 static uint64_t nrandom(void)
 {
@@ -911,16 +1255,17 @@ static uint64_t ncases(void)
         else { scopes = small_scopes; nscopes = NSCOPES(small_scopes); }
     } else if (vrt_thorough) { scopes = thorough_scopes; nscopes = NSCOPES(thorough_scopes); }
     else { scopes = quick_scopes; nscopes = NSCOPES(quick_scopes); }
-    return nscopes + (is_clear_mode ? 0 : NBIG) + nrandom();
+    return nscopes + (is_clear_mode ? 0 : NBIG + nruns()) + nrandom();
 }
 static void run_case(uint64_t idx)
 {
-    const uint64_t nb = is_clear_mode ? 0 : NBIG;
+    const uint64_t nb = is_clear_mode ? 0 : NBIG, nr = is_clear_mode ? 0 : nruns();
     /* none of these containers ever needs memory: every second case runs with an allocator that refuses everything */
     if (idx & 1) { vrt_fp_arm(NULL, 0, 1); VRT_COUNT("nomem.cases"); }
     if (idx < (uint64_t)nscopes) run_closure((int)idx);
     else if (idx < nscopes + nb) run_big(idx - nscopes);
-    else run_random(idx - nscopes - nb);
+    else if (idx < nscopes + nb + nr) run_runs(idx - nscopes - nb);
+    else run_random(idx - nscopes - nb - nr);
     vrt_fp_disarm();
 }
 static void winit(void)
@@ -930,6 +1275,8 @@ static void winit(void)
     (void)ncases();
 }
 
+/* the names up to "sort.runs.cases" are observations every mode makes; the rest belong to the cases that mode "clear" (C15) leaves out */
+static const char *required_clear[64];
 static const char *const required[] = {
     "op.push_front", "op.push_back", "op.pop_front", "op.pop_back", "op.pop_front.empty", "op.pop_back.empty",
     "op.insert", "op.insert.after-last", "op.erase.only", "op.erase.first", "op.erase.last", "op.erase.inner",
@@ -941,8 +1288,26 @@ static const char *const required[] = {
     "op.find.absent", "op.find.fwd.duplicates", "op.find.rev.duplicates",
     "op.foreach.fwd", "op.foreach.rev", "op.foreach.early-stop", "op.foreach.early-stop.negative-value",
     "op.foreach.erase-one", "op.foreach.erase-all", "op.foreach.erase-and-stop", "op.foreach.erase-last-visited",
-    "op.clear.nonempty", "clear.handed-over", "audit.list", "closure.states", "random.histories", NULL
+    "op.clear.nonempty", "clear.handed-over", "audit.list", "closure.states", "random.histories",
+    "op.foreach.reentrant", "op.foreach.reentrant.outer-stop", "foreach.reentrant.inner-early-stop",
+    "foreach.reentrant.inner-full-walk.same-list", "foreach.reentrant.inner-full-walk.other-list", "foreach.reentrant.find",
+    /* from here on: not in mode "clear" */
+    "sort.runs.cases", "sort.runs.more-than-64-runs", "sort.runs.more-than-1024-runs", "sort.runs.ascending-runs", "sort.runs.descending-runs",
+    "sort.runs.comparator-agrees-with-runs", "sort.runs.comparator-against-runs", "sort.comparator-sorted-another-list", NULL
 };
 static const struct vrt_harness H = { "dlist", ncases, run_case, winit, NULL, required, 16 };
+static struct vrt_harness H_clear;
 
-int main(int argc, char **argv) { return vrt_main(argc, argv, &H); }
+int main(int argc, char **argv)
+{
+    int i;
+    /* mode "clear" has no sort-with-run-structure cases: it must not be asked for their counters */
+    for (i = 1; i + 1 < argc; i++) if (!strcmp(argv[i], "--mode") && !strcmp(argv[i + 1], "clear")) {
+        int k;
+        for (k = 0; k < 63 && required[k] && strcmp(required[k], "sort.runs.cases"); k++) required_clear[k] = required[k];
+        required_clear[k] = NULL;
+        H_clear = H; H_clear.required = required_clear;
+        return vrt_main(argc, argv, &H_clear);
+    }
+    return vrt_main(argc, argv, &H);
+}
